@@ -539,7 +539,7 @@ class Driver(object):
                 "step": i, "object": "copy#%d" % o.id if o.is_copy else "original", "state_before": call.state,
                 "call": sym_str(sym), "args": [_render(a) for a in call.args], "automaton": call.kind,
                 "expected": _render(call.expected) if call.expected is not None else extra,
-                "observed": _render(outcome[1]) if outcome[0] != "ok" or call.kind != "ok" else _render(outcome[1]),
+                "observed": _render(outcome[1]),
                 "history_of_this_object": [(sym_str(s), [_render(a) for a in args], out) for s, args, out in o.hist][-30:]}
 
     def step(self, o, sym, i, datafn, nlive, probe=False):
